@@ -161,6 +161,16 @@ def classify_report(stderr, origin_dirs):
                 return fn
         return None
     lines = stderr.splitlines()
+    m = re.search(r'ERROR: (?:Thread|Address|UndefinedBehavior)Sanitizer: (SEGV|BUS|FPE|ILL|ABRT)\b', stderr)
+    if m:
+        # the child died of a signal inside a sanitizer build: name it by the first frame of the code under test (if any is symbolized)
+        frames, on = [], False
+        for ln in lines:
+            if re.match(r'^\s+#\d+ ', ln):
+                frames.append(ln); on = True
+            elif on:
+                break
+        return 'crash|%s|%s' % (m.group(1), label(parse_frames(frames)) or 'unattributed'), True, stderr
     if 'ThreadSanitizer' in stderr:
         stacks, curst = [], None
         for ln in lines:
